@@ -1,5 +1,6 @@
 (* C01/C02 model driver (one driver serves both properties; C02 cases carry the flag '2').
-   case line:  <page> <flags> <op> ...     flags: '-' | 'v' (verbose) | '2' (C02 spec tokens) | 'v2'
+   case line:  <page> <flags> <op> ...     flags: '-' or letters: v (verbose), 2 (C02 spec tokens), n (no spec line:
+   bulk cases, the list spec is quadratic)
    ops: see harness/drv_c01.c.   Prints "M <model line>" and "S <spec line>" per case.
    The S line comes from the sorted-list spec (BTreeSpec) only. *)
 module String = Stdlib.String
@@ -59,10 +60,12 @@ let () =
       let ln = nat_of_int lv and inn = nat_of_int iv in
       verbose := String.contains flags 'v';
       let c02 = String.contains flags '2' in
+      let nospec = String.contains flags 'n' in (* bulk cases: model only, spec line '*' *)
       let mo = Buffer.create 256 and ms = Buffer.create 256 and so = Buffer.create 256 in
       let t = ref (BTreeModel.empty_tree : elt BTreeModel.tree) in
       let oracle = ref [] in
       let spec = ref ([] : elt list) in
+      let slen = ref 0 in
       let has_oracle = ref false in
       let crashed = ref false in
       let tag_or_end r it = match it with
@@ -95,9 +98,10 @@ let () =
             t := t'; oracle := o';
             Printf.bprintf mo "i:%s:%d " (stname st) (int_of_z (BTreeModel.btree_size t'));
             Printf.bprintf ms "%s " (log_str lg);
-            let (sst, s') = BTreeSpec.set_insert rank !spec e in
+            let (sst, s') = if nospec then (st, []) else BTreeSpec.set_insert rank !spec e in
             spec := s';
-            Printf.bprintf so "i:%s:%d " (stname sst) (List.length s')
+            if sst = BTreeSpec.SUCCESS then incr slen;
+            Printf.bprintf so "i:%s:%d " (stname sst) !slen
           | 'r' ->
             let k = int_of_string arg in
             let e = (k, -1) in
@@ -107,14 +111,22 @@ let () =
               (match out with Some (_, tg) when st = BTreeSpec.SUCCESS -> string_of_int tg | _ -> "-")
               (int_of_z (BTreeModel.btree_size t'))
               (if st = BTreeSpec.SUCCESS then tag_or_end t'.BTreeModel.root it else "na");
+            (if st = BTreeSpec.SUCCESS then begin
+               let other = match it with
+                 | BTreeModel.IEnd -> BTreeModel.IEnd
+                 | _ -> let ((_, fi), _) = BTreeModel.find rank dflt t' (BTreeModel.iter_get dflt t'.BTreeModel.root it) in fi in
+               Printf.bprintf mo "q%d " (if BTreeModel.iter_equals it other && BTreeModel.iter_equals other it then 1 else 0)
+             end else Printf.bprintf mo "qna ");
             Printf.bprintf ms "%s/%s " (iter_str it) (log_str lg);
-            let ((sst, sout), s') = BTreeSpec.set_remove rank !spec (z_of_int k) in
+            let ((sst, sout), s') = if nospec then ((st, None), []) else BTreeSpec.set_remove rank !spec (z_of_int k) in
             spec := s';
+            if sst = BTreeSpec.SUCCESS then decr slen;
             Printf.bprintf so "r:%s:%s:%d %s " (stname sst)
               (match sout with Some (_, tg) -> string_of_int tg | None -> "-")
-              (List.length s')
+              !slen
               (if sst <> BTreeSpec.SUCCESS then "nna"
-               else if c02 then "n" ^ opt_tag_or_end (BTreeSpec.set_succ rank s' (z_of_int k)) else "*")
+               else if c02 then "n" ^ opt_tag_or_end (BTreeSpec.set_succ rank s' (z_of_int k)) else "*");
+            Printf.bprintf so "%s " (if sst <> BTreeSpec.SUCCESS then "qna" else if c02 then "q1" else "*")
           | 'f' ->
             let k = int_of_string arg in
             let ((st, it), lg) = BTreeModel.find rank dflt !t (k, -1) in
@@ -128,10 +140,10 @@ let () =
             let (t', lg) = BTreeModel.clear !t true in
             t := t';
             destroyed "c" lg 0;
-            spec := []
+            spec := []; slen := 0
           | 'C' ->
             let (t', _) = BTreeModel.clear !t false in
-            t := t'; spec := [];
+            t := t'; spec := []; slen := 0;
             Printf.bprintf mo "C:0 "; Printf.bprintf ms "- "; Printf.bprintf so "C:0 "
           | 'w' ->
             if int_of_nat (BTreeModel.height !t.BTreeModel.root) > max_height then crashed := true;
@@ -217,6 +229,6 @@ let () =
         (* a walk that needs a frame at level >= ZIX_BTREE_MAX_HEIGHT: assertion / out-of-bounds write in the code *)
         if !crashed then Printf.printf "M CRASH\n"
         else Printf.printf "M %s || %s\n" (Buffer.contents mo) (Buffer.contents ms);
-        if !has_oracle then Printf.printf "S *\n" else Printf.printf "S %s\n" (Buffer.contents so)
+        if !has_oracle || nospec then Printf.printf "S *\n" else Printf.printf "S %s\n" (Buffer.contents so)
       end
     | _ -> Printf.printf "M ?\nS ?\n")
